@@ -40,6 +40,18 @@ Definition thl_eqb (a b : option out_t) : bool :=
       && set_eqb rtree_eqb a5 b5
   | _, _ => false
   end.
+(* outside the coherent region the ANY answer need not belong to the ALL set: only its presence is compared *)
+Definition thl_eqb_weak (a b : option out_t) : bool :=
+  match a, b with
+  | Some (a1, a2, a3, a4, a5), Some (b1, b2, b3, b4, b5) =>
+      set_eqb rtree_eqb a1 b1
+      && (match b2 with [] => match a1 with [] => true | _ => false end
+                      | [_] => match a1 with [] => false | _ => true end | _ => false end)
+      && list_eqb (list_eqb ext_eqb) a3 b3
+      && set_eqb rtree_eqb a4 b4
+      && set_eqb rtree_eqb a5 b5
+  | _, _ => false
+  end.
 """
 
 
